@@ -80,6 +80,7 @@ UndClauses(e) ==
         W == [x \in U |-> LET i == CHOOSE j \in DOMAIN e.W : e.W[j][1] = x[1] /\ e.W[j][2] = x[2] IN e.W[i][3]]
         C == CCs(V, E)
         M == IF e.chk.cliques THEN MaxCliques(V, E) ELSE {}
+        CG == CliqueGraphEdgesOf(M)
     IN
     << <<"ConnectedComponents", FamEq(o.ccs, C)>>,
        <<"BreadthFirst.WalkAll", FamEq(o.bfsall, C)>>,
@@ -89,8 +90,8 @@ UndClauses(e) ==
                          ELSE NoDup(SetSeq(o.cliques)) /\ \A i \in DOMAIN o.cliques : NoDup(o.cliques[i]) /\ IsMaxClique(V, E, Rng(o.cliques[i]))>>,
        <<"CliqueGraph", e.chk.cliques =>
             /\ FamEq(o.cgnodes, M)
-            /\ {<<{Rng(x.a), Rng(x.b)}, Rng(x.s)>> : x \in Rng(o.cgedges)} = {<<{x[1], x[2]}, x[1] \cap x[2]>> : x \in CliqueGraphEdges(V, E)}
-            /\ 2 * Len(o.cgedges) = Cardinality(CliqueGraphEdges(V, E))>>,
+            /\ {<<{Rng(x.a), Rng(x.b)}, Rng(x.s)>> : x \in Rng(o.cgedges)} = {<<{x[1], x[2]}, x[1] \cap x[2]>> : x \in CG}
+            /\ 2 * Len(o.cgedges) = Cardinality(CG)>>,
        <<"KCliqueCommunities", e.chk.kcc => \A k \in DOMAIN o.kcc :
             IF k = 1 THEN V # {} => (Len(o.kcc[1]) = 1 /\ ListIsSet(o.kcc[1][1], V))
             ELSE FamEq(o.kcc[k], KCliqueCommunities(V, E, k))>>,
